@@ -30,7 +30,7 @@ var nameStyles = map[string][]string{
 	"plain":   {"a", "b", "c", "d", "e1", "f2"},
 	"sqlwild": {"a", "ab", "a_", "a%", "a b", "abc", "_", "%"},
 	"unicode": {"é", "日本", "ü x", "a", "ñandú", "b"},
-	"dots":    {"x.gz", "y.age", "z.zst", "w.pgp", ".h", "v.tar.lz4", "u.br", "t.bz2", "a.b"},
+	"dots":    {"x.gz", "y.age", "z.zst", "w.pgp", ".h", "v.tar.lz4", "u.br", "t.bz2", "a.b", "t.", "s.."},
 	"long":    {strings.Repeat("L", 120), strings.Repeat("m", 101) + ".txt", "a", "b"},
 	"quotes":  {"it's", `q"q`, "a\\b", "a:b", "c;d", "e"},
 	"prefix":  {"a", "aa", "aaa", "a.a", "a-a", "b"},
@@ -402,6 +402,30 @@ func GenHistory(r *rand.Rand, o GenOpts) ([]Op, Universe) {
 			}
 			if r.Float64() < 0.2 {
 				g.emit(Op{K: "h.sync", H: h})
+			}
+			g.emit(Op{K: "h.close", H: h})
+		}})
+		gens = append(gens, gen{w(2), func() {
+			// read stream that is opened, positioned and closed again (its background restore may
+			// still be on its way to the drive when the next call starts); reads are whole-file
+			// single-call reads (KF6)
+			p, ok := g.existingFile()
+			if !ok {
+				return
+			}
+			g.nexH++
+			h := g.nexH
+			if e := g.emit(Op{K: "open", P: p, H: h}); e.Class != "ok" {
+				return
+			}
+			switch r.IntN(3) {
+			case 0:
+				g.emit(Op{K: "h.seek", H: h, O: 0, W: 0})
+			case 1:
+				g.emit(Op{K: "h.seek", H: h, O: int64(r.IntN(4)), W: 0})
+				g.emit(Op{K: "h.read", H: h, N: 1 << 17})
+			case 2:
+				g.emit(Op{K: "h.read", H: h, N: 1 << 17})
 			}
 			g.emit(Op{K: "h.close", H: h})
 		}})
